@@ -59,6 +59,7 @@ def correspondence(ctx):
                    "InventoryHP.cumulative_decays: relative 1e-13 of the proved enclosure", shard=2)
     import corr_floateval as FE
     FE.floateval_stream(rng, 400 if ctx["tier"] == "thorough" else 40, streams, viol, samples, which=("cum",))
+    FE.floateval_stream(rng, 100 if ctx["tier"] == "thorough" else 20, streams, viol, samples, which=("cum",), ds="synth")
     sn, ss = D.names_of("synth")
     scases = D.gen_cases(rng, sn, ss, 100, 20, "Inventory", ds="synth", cum_every=1)
     D.decay_stream(rng, scases, "check_float_decay Synth", "cumulative_float_synth", streams, viol, samples,
